@@ -97,6 +97,8 @@ SLURM_SHORT_STATES = {
     "RS": BackendStatus.SUBMITTED,
     # Sibling was removed from cluster due to other cluster starting the job.
     "RV": BackendStatus.SUBMITTED,
+    # Job is being signaled.
+    "SI": BackendStatus.RUNNING,
     # The job was requeued in a special state. This state can be set by users, typically
     # in EpilogSlurmctld, if the job has terminated with a particular exit value.
     "SE": BackendStatus.SUBMITTED,
